@@ -143,6 +143,7 @@ class FuncState:
         self.mod = func.module
         self.env: dict[str, V] = {}
         self.ret = VCLEAN
+        self.ret_tuple = None      # per-position kinds when every return is a tuple display of one length; False otherwise
         self.sinks: list[Sink] = []
         self.changed = False
         params = func.params
@@ -372,6 +373,9 @@ class FuncState:
         allv = argv + list(kwv.values())
 
         if isinstance(f, ast.Name) and f.id not in self.env:
+            if name in ('sorted', 'min', 'max') and not haskey and len(e.args) == 1 and (first.kind == SET or first.kind in ORDS):
+                # keyless ordering of a seed-ordered collection: sound only when the elements are totally ordered (C16-R7)
+                an.keyless_orderings[(self.func.key, norm(e))] = (self.func, e)
             if name == 'sorted':
                 if haskey and (first.kind == SET or first.kind in ORDS):
                     return self.observe(first, e, 'sorted(key=...) over a set (ties keep the input order)')
@@ -482,8 +486,10 @@ class FuncState:
             callees = an.cg.resolve_call(self.func, e)
         if callees:
             outs = []
+            tuples = []
             for c in callees:
                 if c.name in ('__init__', '__new__'):
+                    tuples.append(False)
                     an.note_call(c, self._bind_args(c, e, argv, kwv, ctor=True))
                     held = [v for v in allv if v.kind in TAINTED]
                     outs.append(V(HOLD, join(*held).roots) if held else VCLEAN)
@@ -491,6 +497,12 @@ class FuncState:
                 bound = self._bind_args(c, e, argv, kwv)
                 an.note_call(c, bound)
                 outs.append(an.summary(c, bound))
+                stc = an._memo.get((c.key, bound))
+                tuples.append(stc.ret_tuple if stc is not None and not (c.node.returns is not None and ann_is_set(c.node.returns)) else False)
+            if tuples and all(isinstance(t, list) for t in tuples) and len({len(t) for t in tuples}) == 1:
+                an.tuple_results[id(e)] = [join(*col) for col in zip(*tuples)]
+            else:
+                an.tuple_results.pop(id(e), None)
             return join(*outs)
         # unknown external callable: pass-through for itertools-like names already handled; otherwise clean
         if name in an.output_params:
@@ -621,7 +633,16 @@ class FuncState:
     def stmt(self, s, tl):
         if isinstance(s, ast.Assign):
             v = self.kind(s.value, tl)
+            per_pos = self.an.tuple_results.get(id(s.value)) if isinstance(s.value, ast.Call) else None
+            if isinstance(s.value, ast.Tuple) and not any(isinstance(x, ast.Starred) for x in s.value.elts):
+                per_pos = [self.kind(x, tl) for x in s.value.elts]       # `a, b = (x, y)`
             for t in s.targets:
+                if per_pos is not None and isinstance(t, (ast.Tuple, ast.List)) and len(t.elts) == len(per_pos) \
+                        and not any(isinstance(x, ast.Starred) for x in t.elts):
+                    # `a, b, c = f(..)` where every return of f is a tuple display: position by position
+                    for x, pv in zip(t.elts, per_pos):
+                        self.assign_target(x, pv, tl)
+                    continue
                 self.assign_target(t, v, tl, s.value)
         elif isinstance(s, ast.AnnAssign):
             v = self.kind(s.value, tl) if s.value is not None else VCLEAN
@@ -651,6 +672,16 @@ class FuncState:
             self.expr_stmt(s.value, tl)
         elif isinstance(s, ast.Return):
             if s.value is not None:
+                if isinstance(s.value, ast.Tuple) and not any(isinstance(x, ast.Starred) for x in s.value.elts) and self.ret_tuple is not False:
+                    ks = [self.kind(x, tl) for x in s.value.elts]
+                    if self.ret_tuple is None:
+                        self.ret_tuple = ks
+                    elif len(self.ret_tuple) == len(ks):
+                        self.ret_tuple = [join(a, b) for a, b in zip(self.ret_tuple, ks)]
+                    else:
+                        self.ret_tuple = False
+                else:
+                    self.ret_tuple = False
                 v = self.kind(s.value, tl)
                 if v.kind in TAINTED:
                     self.set_ret(v)
@@ -813,6 +844,8 @@ class Analysis:
         self.site_by_node = {id(s.node): s for s in ctx.sites}
         self.output_params = output_params or {}
         self.setish_names = {}
+        self.keyless_orderings = {}
+        self.tuple_results = {}
         self._globals = {}
         for func in self.repo.all_funcs():
             names = set()
